@@ -306,7 +306,7 @@ def agnostic_domain(case):
   exs = [data(n, seed, off=i) for i, n in enumerate(sizes)]
   for ex in exs:
     ex['domain_id'] = (ex['domain_id'] % nd).astype(np.int32)
-  alpha = np.asarray([0.5, 1.5, 2.0][:nd])
+  alpha = np.asarray([0.5, 1.5, 2.0, 0.25, 3.0][:nd])
   geoms = _geoms(case)
   evals = 0
   for p in (W0, W1):
@@ -589,7 +589,7 @@ def plan(ctx):
                                 for t in ([3], [2, 0, 3], [0, 0], [5, 1])] +
            [{'loss': 'sq', 'reg': r, 'sizes': t, 'seed': s, 'base': 'mom'} for r in ('none', 'l2c') for t in ([0, 0], [0], [2, 0, 3])], chunk=1)
   ctx.pmap('agnostic_domain', [{'loss': l, 'sizes': t, 'num_domains': nd, 'seed': s} for l in ('sq', 'abs')
-                               for t in tuples for nd in (2, 3)] +
+                               for t in tuples for nd in (1, 2, 3, 5)] +
            [{'loss': 'sq', 'sizes': t, 'num_domains': 2, 'seed': s, 'reg': r} for r in ('l2', 'l2c') for t in tuples] +
            [{'loss': 'sq', 'sizes': t, 'num_domains': 2, 'seed': s, 'backend': be} for be in bes for t in ptuples], chunk=2)
   ctx.pmap('kmeans_centers', [{'lam': lam, 'clusters': k, 'sizes': t, 'epochs': ep, 'rngs': list(range(8 if th else 5)), 'seed': s, 'route': rt,
